@@ -10,7 +10,8 @@ import PromModel.Suites.WalSuite
       (`repair=<none|wal:seg:off|wbl:seg:off>`) from the segment bytes of the `logs` line, by the control
       flow of `Damage.openLogs` (checkpoint, then WAL segment by segment with the decoders of `loadWAL`,
       then the WBL only when the WAL was clean).  Everything else on a `site` line is an observation of
-      the real database and is decided by the judge.
+      the real database and is decided by the judge.  The extra fields `cb=` (truncation of a NON-newest head-chunk
+      file at a chunk boundary) and `cut=` (kinds I/O of the chunks a truncation removes) describe the site.
   judge (independent of the framing/replay model; it only uses the workload description of the `db` line):
     see `judgeSite`.
 -/
@@ -339,11 +340,18 @@ def judgeSite (d : Db) (site : Site) : Option (Bool × String) :=
   let known := d.knownSeries site.j
   let mustOoo := (d.oooUpTo site.jw).filter fun x => known.contains x.s
   let f18 := site.cls = "wal" ∧ site.repair.startsWith "repair=wal:" ∧ ooo1.isEmpty ∧ !mustOoo.isEmpty
+  -- documented pattern (C04-F5): a head-chunk file that is NOT the newest one, cut at a chunk boundary, reads as
+  -- complete; the WBL markers of the out-of-order chunks behind the cut point into a file older than the last
+  -- chunk loaded, are honoured, and the samples replayed from the intact WBL are thrown away.  In the NEWEST
+  -- file (cb = 0) the marker comparison (file sequence, then offset) must keep them: never a documented pattern.
+  let f5 := site.cls = "chunks" ∧ site.cb ∧ site.mu = "trunc" ∧ site.repair.startsWith "repair=none"
   let r1 : Option (Bool × String) :=
     if f18 then some (true, s!"wbl-skipped-after-wal-repair {site.tag} {site.repair} missing-ooo={mustOoo.length}")
     else match mustOoo.find? (fun x => !has ooo1 x) with
-      | some x => some (false, s!"ooo-lost {site.tag} session=1 sample={x.show} {site.repair}")
+      | some x => some (f5, s!"ooo-lost {site.tag} session=1 sample={x.show} {site.repair}")
       | none => none
+  -- what the second session must still have: everything, except what the documented pattern already lost
+  let mustOoo2 := if f5 then mustOoo.filter (fun x => has ooo1 x) else mustOoo
   -- further writes and the second restart
   let r2 : Option (Bool × String) :=
     if site.app ≠ "ok" then some (false, s!"writes-rejected {site.tag} app={site.app}")
@@ -360,14 +368,14 @@ def judgeSite (d : Db) (site : Site) : Option (Bool × String) :=
           | some x, _ => some (false, s!"restart-lost-data {site.tag} sample={x.show}")
           | _, some x => some (false, s!"restart-added-data {site.tag} sample={x.show}")
           | none, none =>
-            match mustOoo.find? (fun x => !has ooo2 x) with
+            match mustOoo2.find? (fun x => !has ooo2 x) with
             | some x => some (false, s!"ooo-lost {site.tag} session=2 sample={x.show}")
             | none => none
-  match r2 with
-  | some (false, m) => some (false, m)
-  | _ => match r1 with
-    | some r => some r
-    | none => r2
+  match r1, r2 with
+  | some (false, m), _ => some (false, m)
+  | _, some (false, m) => some (false, m)
+  | some r, _ => some r
+  | none, _ => r2
 
 def parseSite (fs : List String) (implOut : String) : Option Site :=
   match fs with
